@@ -525,13 +525,26 @@ mut("ebr-pin-store-without-fence", "break", ["C13"], "pin publishes with a plain
         """                    self.epoch.store(new_epoch, Ordering::Relaxed);""")], ["EBR-PIN-VALIDATE"])
 mut("ebr-pin-publish-unpinned", "break", ["C13"], "pin publishes the unpinned epoch",
     [ed(I, "let new_epoch = global_epoch.pinned();", "let new_epoch = global_epoch;")], ["EBR-PIN-VALIDATE"])
-mut("ebr-advance-ignores-stall", "break", ["C18", "C13"], "try_advance ignores a stalled traversal",
+mut("ok-ebr-advance-goes-on-after-stall", "benign", [], "try_advance goes on after a stall: the iterator restarts from the head, so the traversal "
+    "that ends normally is complete (was the breaking entry ebr-advance-ignores-stall until S-C18-7 showed the alarm to be false: "
+    "the two ends are a rely/guarantee pair now)",
     [ed(I, """                Err(IterError::Stalled) => {
                     // A concurrent thread stalled this iteration. That thread might also try to
                     // advance the epoch, in which case we leave the job to it. Otherwise, the
                     // epoch will not be advanced.
                     return global_epoch;
-                }""", """                Err(IterError::Stalled) => {}""")], ["EBR-ADVANCE"])
+                }""", """                Err(IterError::Stalled) => {}""")])
+mut("ebr-advance-ignores-stall-no-restart", "break", ["C18", "C13"], "try_advance ignores a stalled traversal and the iterator does not restart",
+    [ed(I, """                Err(IterError::Stalled) => {
+                    // A concurrent thread stalled this iteration. That thread might also try to
+                    // advance the epoch, in which case we leave the job to it. Otherwise, the
+                    // epoch will not be advanced.
+                    return global_epoch;
+                }""", """                Err(IterError::Stalled) => {}"""),
+     ed("src/ebr_impl/sync/list.rs", """                    self.pred = self.head;
+                    self.curr = self.head.load(Acquire, self.guard);
+""", """                    self.curr = RawShared::null();
+""")], ["EBR-ADVANCE", "EBR-LIST"])
 mut("ebr-advance-ignores-lagging", "break", ["C13", "C14"], "try_advance does not refuse on a lagging participant",
     [ed(I, """                    if local_epoch.is_pinned() && local_epoch.unpinned() != global_epoch {
                         return global_epoch;
@@ -1183,11 +1196,12 @@ mut("ok-tun-statics-to-consts", "benign", [], "the two `static mut` tunables bec
      ed(I, "static mut MANUAL_EVENTS_BETWEEN_COLLECT: usize = 64;", "const MANUAL_EVENTS_BETWEEN_COLLECT: usize = 64;"),
      ed(I, "Bag(Vec::with_capacity(unsafe { MAX_OBJECTS }))", "Bag(Vec::with_capacity(MAX_OBJECTS))"),
      ed(I, "if manual_count % unsafe { MANUAL_EVENTS_BETWEEN_COLLECT } == 0 {", "if manual_count % MANUAL_EVENTS_BETWEEN_COLLECT == 0 {")])
-mut("list-stalled-resets-curr-only", "break", ["C18"], "on a stall the iterator reloads curr from the head but keeps the (marked) predecessor link",
+mut("ok-list-stalled-resets-curr-only", "benign", [], "on a stall the iterator reloads curr from the head but keeps the (marked) predecessor link: "
+    "its only consumer gives up at a stall (rely/guarantee with EBR-ADVANCE; was a breaking entry)",
     [ed(LF, """                    self.pred = self.head;
                     self.curr = self.head.load(Acquire, self.guard);
 """, """                    self.curr = self.head.load(Acquire, self.guard);
-""")], ["EBR-LIST"])
+""")])
 # steps that exist only in the test suite's build configuration
 mut("rel-mark-cas-in-debug-assert", "break", ["C05", "C04"], "the cascade's DESTRUCTED mark is a `debug_assert!(cas.is_ok())`: it vanishes from a release build",
     [ed(U, """                match rc.state.compare_exchange(
@@ -1939,8 +1953,11 @@ combo("R7-1-no-reset", ["C14", "C13"], "announce_current_epoch retries without r
 combo("R7-1-no-validate", ["C14", "C13"], "announce_current_epoch does not re-read the global epoch", "R7-1",
       [ed(I, "if candidate.value() != global.epoch.load(Ordering::Acquire).value() {", "if false {")], ["EBR-PIN-VALIDATE"])
 combo("R7-3-stall-skipped", ["C18", "C13"], "a stalled traversal item is skipped instead of ending the attempt", "R7-3",
-      [ed(I, "let local = local.map_err(|IterError::Stalled| global_epoch)?;", "let Ok(local) = local else { continue };")],
-      ["EBR-ADVANCE"])
+      [ed(I, "let local = local.map_err(|IterError::Stalled| global_epoch)?;", "let Ok(local) = local else { continue };"), ed("src/ebr_impl/sync/list.rs", """                    self.pred = self.head;
+                    self.curr = self.head.load(Acquire, self.guard);
+""", """                    self.curr = RawShared::null();
+""")],
+      ["EBR-ADVANCE", "EBR-LIST"])
 combo("R8-1-swapped", ["C08", "C17", "C18"], "the const-generic cas helper swaps expected and desired in its strong arm", "R8-1",
       [ed(PT, ".compare_exchange(expected, desired, success, failure)", ".compare_exchange(desired, expected, success, failure)")],
       ["WRAP-ATOMICS"])
@@ -1985,7 +2002,10 @@ combo("R9-3-direct-call", ["C01", "C02", "C13"], "the cap arm of the cascade cal
         return;""", """        RcInner::try_destruct(rc);
         return;""")], ["CW-DEFERRED-ONLY", "REC-DEPTH-GUARD", "CW-CASCADE-DECISION", "REC-IMMEDIATE"])
 combo("R11-2-stall-ignored", ["C18", "C13"], "the `any` closure treats a stalled item as harmless", "R11-2",
-      [ed(I, "Err(IterError::Stalled) => true,", "Err(IterError::Stalled) => false,")], ["EBR-ADVANCE"])
+      [ed(I, "Err(IterError::Stalled) => true,", "Err(IterError::Stalled) => false,"), ed("src/ebr_impl/sync/list.rs", """                    self.pred = self.head;
+                    self.curr = self.head.load(Acquire, self.guard);
+""", """                    self.curr = RawShared::null();
+""")], ["EBR-ADVANCE", "EBR-LIST"])
 combo("R12-1-returns-on-lost-race", ["C17", "C15"], "push returns when the linking CAS lost the race", "R12-1",
       [ed(QF2, """                PushAttempt::Linked => return,
                 PushAttempt::TailLagged | PushAttempt::LostRace => {}""", """                PushAttempt::Linked | PushAttempt::LostRace => return,
